@@ -289,3 +289,78 @@ func (w *World) verifyClassified(cl *Classified) (res *UnitResult) {
 }
 
 var _ = types.Typ
+
+// verifyAxioms: a consistency probe of the axioms of /verif/spec, run with every check. All axioms are
+// instantiated together with ground applications of every spec function at deliberately awkward arguments
+// (fresh sequences of length -1, 0 and 1, integers -1, 0, 1): the set must be satisfiable. An axiom
+// that is false at an ill-formed argument (a quantifier that forgot "len(s) >= 0") would otherwise make
+// every obligation that uses it provable; such a set is reported as a check error (vacuity), never as a
+// pass. (A probe, not a proof of consistency.)
+func (w *World) verifyAxioms(props []string) (res *UnitResult) {
+	res = &UnitResult{Name: "axioms", Kind: "lemma"}
+	fc := &FuncContract{Name: "axioms", Props: props}
+	x := NewExec(w, nil, fc)
+	x.curProps = props
+	res.Ctx = x
+	defer func() {
+		if r := recover(); r != nil {
+			if _, ok := r.(unsupportedErr); ok {
+				res.Obls = x.obls // a probe that cannot be built is skipped, the axioms still load in the real units
+				return
+			}
+			panic(r)
+		}
+	}()
+	st := x.axiomState()
+	x.entry = st
+	c := x.c
+	var names []string
+	for n := range w.cs.specs {
+		names = append(names, n)
+	}
+	sortStrings(names)
+	for _, n := range names {
+		sf := w.cs.specs[n]
+		for _, probe := range []int64{-1, 0, 1} {
+			func() {
+				defer func() {
+					if r := recover(); r != nil {
+						if _, ok := r.(unsupportedErr); !ok {
+							panic(r)
+						}
+					}
+				}()
+				env := &Env{x: x, st: st, old: st, names: map[string]TV{}}
+				var args []TV
+				for i, p := range sf.Params {
+					pt := w.resolveType(p.Type, nil)
+					v := x.freshValue(fmt.Sprintf("probe_%s_%d", n, i), pt)
+					switch u := pt.Underlying().(type) {
+					case *types.Slice:
+						bv, _ := x.boundValue("pb", pt)
+						sq := bv.(SeqV)
+						for k := range sq.C {
+							sq.C[k] = c.Fresh("probe_c", sq.C[k].sort)
+						}
+						sq.Off, sq.Len = c.Int(0), c.Int(probe)
+						v = sq
+					case *types.Basic:
+						if u.Info()&types.IsString != 0 {
+							v = SeqV{C: map[string]*Term{"": c.Fresh("probe_s", ArrSort(SInt, SInt))}, Off: c.Int(0), Len: c.Int(probe)}
+						} else if u.Info()&types.IsInteger != 0 {
+							v = Sc{c.Int(probe)}
+						}
+					}
+					args = append(args, TV{v, pt})
+				}
+				r := x.applySpec(sf, args, env)
+				for _, t := range x.flattenAny(r) {
+					x.hyps = append(x.hyps, c.mk("=", SBool, t, t))
+				}
+			}()
+		}
+	}
+	x.cover(st, "the axioms of /verif/spec are satisfiable together with applications of every spec function at lengths and integers -1, 0, 1", 0, c.True(), props)
+	res.Obls = x.obls
+	return
+}
